@@ -270,7 +270,8 @@ def gen(ck):
         if ln < 1000:
             add(('sequencer_specific', {'data': tuple(data)}))
             add(('sequencer_specific', {'data': bytes(data)}))
-    for v in [[256], [-1], [1.5], ['a'], [None], [1, 2, 300], (1, [2]), 5, None, 1.5, 'ab', '', b'', [True]]:
+    for v in [[256], [-1], [1.5], ['a'], [None], [1, 2, 300], (1, [2]), 5, None, 1.5, 'ab', '', b'', [True],
+              (0, 1.5, 3), [10, 20.25, 30], [0, 1.0, 255], (0, 7.0, 255, 3), [0, 100, 2.5, 255, 4], [255, 0, 1.5]]:
         add(('sequencer_specific', {'data': v}))
     for t in metas.META_NAMES:
         add((t, {}))
